@@ -210,11 +210,34 @@ func DecShare(
 	G := suite.Point().Base()
 	V := suite.Point().Mul(suite.Scalar().Inv(x), encShare.S.V) // decryption: x^{-1} * (xS)
 	ps := &share.PubShare{I: encShare.S.I, V: V}
-	P, _, _, err := dleq.NewDLEQProof(suite, G, V, x)
+
+	// Proof of log_{G}(X) == log_{V}(xS). The decrypted share V is a base point
+	// of the statement and is chosen by the prover, so the challenge must cover
+	// it: otherwise a trustee can pick the commitments first and solve for a
+	// wrong V that satisfies the verification equations.
+	v := suite.Scalar().Pick(suite.RandomStream())
+	vG := suite.Point().Mul(v, G)
+	vH := suite.Point().Mul(v, V)
+	c, err := decShareChallenge(suite, X, encShare.S.V, V, vG, vH)
 	if err != nil {
 		return nil, err
 	}
-	return &PubVerShare{*ps, *P}, nil
+	r := suite.Scalar()
+	r.Mul(x, c).Sub(v, r)
+	return &PubVerShare{*ps, dleq.Proof{C: c, R: r, VG: vG, VH: vH}}, nil
+}
+
+// decShareChallenge computes the challenge of a share decryption proof over
+// the public key X, the encrypted share xS, the decrypted share V and the
+// commitments vG and vH.
+func decShareChallenge(suite Suite, X, xS, V, vG, vH kyber.Point) (kyber.Scalar, error) {
+	h := suite.Hash()
+	for _, p := range []kyber.Point{X, xS, V, vG, vH} {
+		if _, err := p.MarshalTo(h); err != nil {
+			return nil, err
+		}
+	}
+	return suite.Scalar().Pick(suite.XOF(h.Sum(nil))), nil
 }
 
 // DecShareBatch provides the same functionality as DecShare but for slices of
@@ -255,23 +278,10 @@ func VerifyDecShare(suite Suite, G, X kyber.Point, encShare *PubVerShare, decSha
 	}
 
 	// Compute challenge for the decShare
-	h := suite.Hash()
-	var err error
-	if _, err = X.MarshalTo(h); err != nil {
+	expDecChallenge, err := decShareChallenge(suite, X, encShare.S.V, decShare.S.V, decShare.P.VG, decShare.P.VH)
+	if err != nil {
 		return err
 	}
-	if _, err = encShare.S.V.MarshalTo(h); err != nil {
-		return err
-	}
-	if _, err = decShare.P.VG.MarshalTo(h); err != nil {
-		return err
-	}
-	if _, err = decShare.P.VH.MarshalTo(h); err != nil {
-		return err
-	}
-
-	cb := h.Sum(nil)
-	expDecChallenge := suite.Scalar().Pick(suite.XOF(cb))
 
 	if !decShare.P.C.Equal(expDecChallenge) {
 		return fmt.Errorf("didn't verify: %w", ErrDecShareChallengeVerification)
